@@ -137,22 +137,43 @@ def succ_oracle(d: DFA, start: Optional[str], strict: bool, keymap: Dict[str, in
 
 # ------------------------------------------------------------------ RNG instrumentation
 class RecordingRandom(random.Random):
-    """Drop-in for `random.Random` inside automata.fa.dfa: records every randint result."""
+    """Drop-in for `random.Random` inside automata.fa.dfa: records every randint result and
+    notices when the code draws through any other RNG method."""
     log: List[Tuple[int, int, int]] = []
+    other_api = False
+    _inside = False
 
     def randint(self, a, b):
-        r = super().randint(a, b)
+        RecordingRandom._inside = True
+        try:
+            r = super().randint(a, b)
+        finally:
+            RecordingRandom._inside = False
         RecordingRandom.log.append((a, b, r))
         return r
 
+    def random(self):
+        if not RecordingRandom._inside:
+            RecordingRandom.other_api = True
+        return super().random()
 
-class ScriptedRandom:
+    def getrandbits(self, k):
+        if not RecordingRandom._inside:
+            RecordingRandom.other_api = True
+        return super().getrandbits(k)
+
+
+class ScriptedRandom(random.Random):
     """Plays a prescribed list of randint outcomes; beyond the script returns the lower
-    bound and records the range, so that a caller can enumerate the whole outcome tree."""
+    bound and records the range, so that a caller can enumerate the whole outcome tree.
+    Any other RNG method still works (real randomness) but sets `other_api`: the outcome
+    tree can then not be enumerated."""
     script: List[int] = []
     ranges: List[Tuple[int, int]] = []
+    other_api = False
 
     def __init__(self, seed=None):
+        super().__init__(0)
         self.i = 0
 
     def randint(self, a, b):
@@ -162,6 +183,14 @@ class ScriptedRandom:
         r = ScriptedRandom.script[self.i] if self.i < len(ScriptedRandom.script) else a
         self.i += 1
         return r
+
+    def random(self):
+        ScriptedRandom.other_api = True
+        return super().random()
+
+    def getrandbits(self, k):
+        ScriptedRandom.other_api = True
+        return super().getrandbits(k)
 
 
 class patched_random:
@@ -180,6 +209,7 @@ class patched_random:
 def random_word_recorded(d: DFA, k: int, seed: int):
     """(("ok", word) | ("err", cls), choices)"""
     RecordingRandom.log = []
+    RecordingRandom.other_api = False
     with patched_random(RecordingRandom):
         try:
             r = ("ok", d.random_word(k, seed=seed))
@@ -191,6 +221,7 @@ def random_word_recorded(d: DFA, k: int, seed: int):
 def random_word_scripted(d: DFA, k: int, script: Sequence[int]):
     ScriptedRandom.script = list(script)
     ScriptedRandom.ranges = []
+    ScriptedRandom.other_api = False
     with patched_random(ScriptedRandom):
         try:
             r = ("ok", d.random_word(k))
@@ -208,6 +239,8 @@ def exact_distribution(d: DFA, k: int, max_paths: int = 4000):
     while stack:
         script, p = stack.pop()
         r, ranges = random_word_scripted(d, k, script)
+        if ScriptedRandom.other_api:
+            return None  # the code draws through another RNG method: outcomes cannot be enumerated
         if len(ranges) > len(script):
             # the run asked for more outcomes than scripted: branch on the first unscripted one
             a, b = ranges[len(script)]
